@@ -25,6 +25,7 @@ var (
 	errC         = errors.New("errC")
 	errSawCancel = errors.New("fn saw cancellation")
 	errFallback  = errors.New("fallback error")
+	errCause     = errors.New("the caller's own cause")
 )
 
 // Error kinds a script can produce.
@@ -266,14 +267,15 @@ type Op struct {
 	Kind string `json:"kind"` // "exec", "sleep", standalone calls "br.*", "bh.*", "rl.*"
 
 	// exec
-	Stack   int          `json:"stack,omitempty"`
-	Entry   int          `json:"entry,omitempty"`
-	Ctx     int          `json:"ctx,omitempty"`
-	CtxD    D            `json:"ctx_d,omitempty"`
-	CtxKey  string       `json:"ctx_key,omitempty"`
-	Script  int          `json:"script,omitempty"`
-	NoWait  bool         `json:"no_wait,omitempty"` // async: do not wait for completion before the next op
-	Readers [][]ReaderOp `json:"readers,omitempty"` // async: extra reader tasks
+	Stack    int          `json:"stack,omitempty"`
+	Entry    int          `json:"entry,omitempty"`
+	Ctx      int          `json:"ctx,omitempty"`
+	CtxD     D            `json:"ctx_d,omitempty"`
+	CtxKey   string       `json:"ctx_key,omitempty"`
+	CtxCause bool         `json:"ctx_cause,omitempty"` // the caller\'s context is cancelled / expires with a cause of its own (WithCancelCause, WithTimeoutCause)
+	Script   int          `json:"script,omitempty"`
+	NoWait   bool         `json:"no_wait,omitempty"` // async: do not wait for completion before the next op
+	Readers  [][]ReaderOp `json:"readers,omitempty"` // async: extra reader tasks
 
 	// cancellation injected by a separate task
 	CancelSrc  int `json:"cancel_src,omitempty"`
